@@ -1059,23 +1059,29 @@ func c14GenSeq(t *rapid.T) c14Seq {
 	g := &c14Gen{t: t, feat: map[string]bool{}}
 	S, F := c14KW(g, "SELECT"), c14KW(g, "FROM")
 	proj := g.oneOf("sproj", "count(*)", "max(tag)", "count(*), max(tag), min(v)", "*")
+	where := "WHERE v >= 0"
+	if proj == "*" {
+		// row-returning variant: keep the answer small (40 rows), the oracle does
+		// not need 10k rows to see whose files were read
+		where = "WHERE v >= 0 AND time < TIMESTAMP '2024-01-01 00:00:40'"
+	}
 	// header-relative statements over the bare name both databases have
 	var body string
 	switch g.oneOf("sshape", "plain", "plain", "quoted-name", "join", "subq", "cte", "scalar", "commented") {
 	case "plain":
-		body = g.join(S, proj, F, "cpu", "WHERE v >= 0")
+		body = g.join(S, proj, F, "cpu", where)
 	case "quoted-name":
-		body = g.join(S, proj, F, `"cpu"`, "WHERE v >= 0")
+		body = g.join(S, proj, F, `"cpu"`, where)
 	case "join":
 		body = g.join(S, "count(*), max(b.tag)", F, "cpu a", "JOIN", "cpu b", "ON a.time = b.time", "WHERE a.v >= 0")
 	case "subq":
-		body = g.join(S, proj, F, "(", S, "*", F, "cpu", ")", "s", "WHERE v >= 0")
+		body = g.join(S, proj, F, "(", S, "*", F, "cpu", ")", "s", where)
 	case "cte":
-		body = g.join("WITH c AS (", S, "*", F, "cpu", ")", S, proj, F, "c", "WHERE v >= 0")
+		body = g.join("WITH c AS (", S, "*", F, "cpu", ")", S, proj, F, "c", where)
 	case "scalar":
-		body = g.join(S, "(", S, "max(tag)", F, "cpu", ")", "AS m, count(*)", F, "cpu", "WHERE v >= 0")
+		body = g.join(S, "(", S, "max(tag)", F, "cpu", ")", "AS m, count(*)", F, "cpu", where)
 	default:
-		body = g.join(S, "/* c */", proj, F, "cpu", "-- x\n", "WHERE v >= 0")
+		body = g.join(S, "/* c */", proj, F, "cpu", "-- x\n", where)
 	}
 	pad := g.oneOf("padkind", "none", "block-comment", "line-comment", "whitespace", "in-list", "literal", "block-comment", "in-list")
 	n := 0
